@@ -76,6 +76,18 @@ CHECKS = {
         'note': TRUST + ' Not decided: equality of the constructed trees for every document, number forms, whitespace layouts.',
         'technique': 'static analysis: string/char-constant table recovery from MIR and cross-checking of sibling implementations',
     },
+    'C02': {
+        'text': 'Three structural clauses of save/load fidelity, recovered from the code on every run: (1) for every record kind '
+                '(state, flow, call stack, thread, choice, runtime object) the literal JSON keys the saver inserts equal the '
+                'keys the loader looks up, one-sided keys only with a table reason (legacy format / informational); '
+                '(2) every field of the eight persistent structs (63 fields) is read by its writer and assigned by its '
+                'reader or is classified (derived cache / transient by design / persisted elsewhere) - a new field is '
+                'reported until classified; (3) write_rtobject has a branch for each impl RTObject type and ValueType '
+                'variant and the reader constructs each kind. One missing key or field loses that state for every save.',
+        'design_ref': 'DESIGN.md §4 C02',
+        'note': TRUST + ' Not decided: that equal save text implies equal futures; float fidelity; history-dependent aspects.',
+        'technique': 'static analysis: key-table recovery (Map::insert keys vs Map::get keys), field-coverage over MIR places, downcast/variant exhaustiveness',
+    },
 }
 
 NOT_APPLICABLE = {
